@@ -28,7 +28,8 @@ def parseOptNat : SExpr → Option (Option Nat)
   | _ => none
 
 def parseOp : SExpr → Option Op
-  | .list [.atom "dataset", .str ty] => some (.dataset ty)
+  | .list [.atom "dataset", .str ty] => some (.dataset ty [])
+  | .list [.atom "dataset", .str ty, .list args] => do pure (.dataset ty (← Expr.ofSExprL args))
   | .list [.atom "derive", .atom s, .str op, .list args, .str ty] => do
     pure (.derive (← s.toNat?) op (← Expr.ofSExprL args) ty)
   | .list [.atom "terminal", .atom s, .str op, .list args] => do
